@@ -473,6 +473,9 @@ pub fn run_netto(case: &Case) -> Outcome {
     let split = if n >= 2 { (case.cfg(3).max(0) as usize).min(n - 1) } else { 0 };
     type Socks = (Option<Stream>, Option<may::net::UdpSocket>);
     let shared: Arc<Mutex<Option<Socks>>> = Arc::new(Mutex::new(Some(rs)));
+    // (when the reader may get cancelled the peer waits for the end of the stream: there the
+    // reader's end closes the socket as before)
+    let hand_back = !cancel_reader;
     let do_reads = {
         let (began, results, states, shared, reads) = (began.clone(), results.clone(), states.clone(), shared.clone(), reads.clone());
         move |actor: usize, from: usize, to: usize, own: bool| {
@@ -510,6 +513,14 @@ pub fn run_netto(case: &Case) -> Outcome {
                 };
                 results.lock().unwrap()[i] = Some((kind, bytes, vc, vr, t1 - t0));
                 states.leave(actor, i);
+            }
+            // a reader that ends normally hands its socket back for the final count of what
+            // is left in it (a cancelled one unwinds past this and closes it)
+            drop(guard);
+            if let Some(o) = owned.take() {
+                if hand_back {
+                    *shared.lock().unwrap_or_else(|e| e.into_inner()) = Some(o);
+                }
             }
         }
     };
@@ -620,6 +631,36 @@ pub fn run_netto(case: &Case) -> Outcome {
     drop(do_reads);
     reader_done.store(true, Ordering::SeqCst);
     sched::kick_idle();
+    // conservation: everything the peer has written is either in the reads' results or still
+    // in the socket (a read that consumes bytes and then reports a time-out loses them)
+    let mut leftover: Option<usize> = None;
+    if !matches!(rend, End::Cancel) && matches!(send, End::Ok(())) {
+        // (reader_done is set: the peer is on its way out, its writes are all done)
+        poll_until(|| states.reached(1, usize::MAX - 1), 30_000_000_000);
+        if let Some(socks) = shared.lock().unwrap_or_else(|e| e.into_inner()).as_ref() {
+            use std::os::fd::AsRawFd;
+            let fd = match (&socks.0, &socks.1) {
+                (Some(Stream::Unix(u)), _) => u.as_raw_fd(),
+                (Some(Stream::Tcp(t)), _) => t.as_raw_fd(),
+                (_, Some(u)) => u.as_raw_fd(),
+                _ => -1,
+            };
+            // loopback delivery of TCP / UDP is asynchronous: give the kernel a moment
+            if transport != 0 {
+                std::thread::sleep(Duration::from_millis(30));
+            }
+            let mut n = 0usize;
+            let mut b = [0u8; 64];
+            loop {
+                let k = unsafe { libc::recv(fd, b.as_mut_ptr() as *mut libc::c_void, if socks.1.is_some() { 64 } else { 1 }, libc::MSG_DONTWAIT) };
+                if k <= 0 {
+                    break;
+                }
+                n += 1;
+            }
+            leftover = Some(n);
+        }
+    }
     let pend = peer.join();
     for (conn, total, w, r) in bys {
         let (we, re) = (w.join(), r.join());
@@ -686,6 +727,13 @@ pub fn run_netto(case: &Case) -> Outcome {
         }
         if w != 0 && d != 0 && (w as i64 - (*vc + d) as i64).unsigned_abs() < 1_000_000 {
             near = true;
+        }
+    }
+    if let Some(left) = leftover {
+        let written = (0..n).filter(|&i| wrote[i].load(Ordering::SeqCst) != 0).count();
+        let received: usize = res.iter().flatten().filter(|r| r.0 == 0).map(|r| r.1).sum();
+        if received + left != written {
+            out.fail("bytes-lost-or-invented", format!("the peer wrote {written} bytes, the reads returned {received}, {left} are left in the socket"));
         }
     }
     if expect_eof && matches!(rend, End::Cancel) && transport != 3 {
